@@ -10,8 +10,8 @@ leader's _perform_assignment, ensure_coordinator_known) is parked until the NEXT
 by default and arbitrary by configuration.  GroupCoordinator.close() awaits the coordination task, so consumer.stop() is parked with it:
 its bound is then metadata_max_age_ms, not the request / session / rebalance timeouts.
 
-The test drives the real AIOKafkaClient synchronizer with a slow _metadata_update and passes WHILE THE DEFECT IS PRESENT (it is listed in
-known_findings.json); it fails once the stall is gone, which is the signal to turn the entry into a `fixed:` one.
+The test drives the real AIOKafkaClient synchronizer with a slow _metadata_update: it fails before fix cfdad97 (the waiters are served
+after metadata_max_age_ms) and passes after it (they are served at once).
 """
 import asyncio
 import time
@@ -55,8 +55,8 @@ async def _run():
         await asyncio.gather(client._sync_task, return_exceptions=True)
 
 
-def test_waiters_are_parked_for_metadata_max_age_known_finding():
+def test_waiters_are_served_without_waiting_for_the_next_periodic_refresh():
     waited, done = asyncio.run(_run())
     assert done, "the update was never delivered at all"
-    # without the defect the refresh for the new topic set follows immediately (a few milliseconds)
-    assert waited >= MAX_AGE * 0.8, f"waiters were served after {waited:.2f}s: the stall is gone, turn the known finding into a fixed: entry"
+    # the refresh for the new topic set must follow immediately (a few milliseconds), not after metadata_max_age_ms
+    assert waited < MAX_AGE * 0.5, f"waiters of the metadata update were parked for {waited:.2f}s (metadata_max_age_ms = {MAX_AGE}s)"
